@@ -103,7 +103,9 @@ AggAt(table, pts) == AggAtL(table, pts, Lams(pts))
 
 \* DKG (mpc.go / tps.go KeyGen): party p deals the polynomial Coef(.., p, w, 0..t-1) (SSS.Gen), the party at POSITION j of the
 \* parties list receives the value at j and adds up what it received (combineShares).   w: 0 = x (or the BLS key), k = y_k
-Coef(cs, se, p, w, d) == Rnd(cs, <<se, 1, p, w, d>>)
+\* (a cheap fixed mixing of the indices: this is by far the most frequently evaluated constant)
+Coef(cs, se, p, w, d) == LET v == (Seed(cs) + 7919 * se + 1301 * p + 211 * w + 17 * d + 5 * p * w + 3 * w * d) % Q IN
+                         Add(Mul(Mul(v, v), v), 29 * d + p)
 PolyAt(cs, se, p, w, t, x) == Sum([d \in 1..t |-> Mul(Coef(cs, se, p, w, d - 1), Pow(x % Q, d - 1))])      \* Polynomial.ValueAt
 ShareOf(cs, se, n, t, w, j) == Sum([p \in 1..n |-> PolyAt(cs, se, p, w, t, j)])
 TSubsets(n, t) == {SortedSeq(T) : T \in {U \in SUBSET (1..n) : Cardinality(U) = t}}      \* chooseKoutOfN(n, t)
